@@ -4,5 +4,5 @@ set -u
 P=$1; PROP=$2; REV=${3:-}
 export GOFLAGS=-mod=mod GOPROXY=off GOSUMDB=off GOTOOLCHAIN=local
 git -C /repo apply $REV "$P" || { echo "APPLY FAILED"; exit 3; }
-/tmp/govc -repo /repo -spec /verif/contracts/stdlib.go -props $PROP -out /tmp/try.json 2>&1 | tail -${LINES_OUT:-12}
+/verif/bin/govc -repo /repo -spec /verif/contracts/stdlib.go -props $PROP -out /tmp/try.json 2>&1 | tail -${LINES_OUT:-12}
 git -C /repo checkout -- .
